@@ -27,7 +27,7 @@
    Validity is a claim of this module about the language; the executors CHECK it by parsing
    every generated program completely (a program with a parse error is a generator defect and
    stops the check with exit 2 -- it is never counted as a violation).                     *)
-EXTENDS Integers, Sequences
+EXTENDS Integers, Sequences, TLC
 CONSTANT D        \* nesting fuel of the start symbol
 
 T(s)     == [k |-> "t", s |-> s, d |-> 0]
@@ -117,8 +117,8 @@ Alts(x) ==
 
 NTNames == {"Chunk", "Pipes", "Pipeline", "Args", "Cmpd", "Idx", "IdxNB", "Index", "Elems",
             "Pairs", "Pair", "BElem"}
-\* constant-level table of the alternatives (TLC evaluates it once)
-AltTable == [s \in NTNames |-> [d \in 0..D |-> Alts(NT(s, d))]]
+\* constant-level table of the alternatives (TLCEval: TLC materialises it once)
+AltTable == TLCEval([s \in NTNames |-> TLCEval([d \in 0..D |-> TLCEval(Alts(NT(s, d)))])])
 
 VARIABLE form
 
